@@ -87,9 +87,14 @@ half-to-even; the result is `m * 2^f / 2^1074`, or ±INF from `2^1024` on. -/
 def rhe (p q : Nat) : Nat :=
   if 2 * (p % q) > q ∨ (2 * (p % q) = q ∧ (p / q) % 2 = 1) then p / q + 1 else p / q
 
+/-- ⌊log2 A⌋, taking a factor 2^1074 out first (the arguments of `pickF` are of that form: the
+halving loop then runs on the small cofactor) -/
+def natLog2Scaled (A : Nat) : Nat :=
+  if A % 2 ^ 1074 = 0 then natLog2 (A / 2 ^ 1074) + 1074 else natLog2 A
+
 /-- `A / d` lies in (2^(lA-ld-1), 2^(lA-ld+1)): the exponent is `lA - ld - 52` or one less, at least 0 -/
 def pickF (A d : Nat) : Nat :=
-  let t : Int := (natLog2 A : Int) - (natLog2 d : Int) - 52
+  let t : Int := (natLog2Scaled A : Int) - (natLog2 d : Int) - 52
   if t ≤ 0 then 0
   else if A / (d * 2 ^ t.toNat) < 2 ^ 52 then t.toNat - 1 else t.toNat
 
